@@ -164,3 +164,45 @@ Proof.
   destruct (d =? c) eqn:E2; [|reflexivity]. apply Z.eqb_eq in E2. subst d.
   destruct H as [H|H]; [exfalso; apply H; left; reflexivity|congruence].
 Qed.
+
+(* C14, end to end for one recipient: a registered non-logger subscriber that cannot be written to.
+   Its drop count is bumped and ONE failure notice naming it and embedding the header as last stamped is
+   delivered, as a whole frame, to exactly the eligible subscribers of FAILED_MESSAGE (all of them ready);
+   nothing else is written, and the delivery loop goes on with the same header. *)
+Definition fail_hdr : hdr := mgr_hdr MT_FAILED_MESSAGE SZ_FAILED_MESSAGE 0.
+
+Theorem notice_exact cfg k p hh c s :
+  0 <= c -> zmem (h_type hh) no_notice_types = false ->
+  m_reg (find_mod c (mods s)) = true -> zmem c (wl s) = false -> m_logger (find_mod c (mods s)) = false ->
+  NoDup (snapshot s MT_FAILED_MESSAGE) -> (forall f, In f (snapshot s MT_FAILED_MESSAGE) -> ready s f) ->
+  exists s', deliver_with cfg (forward cfg (S k)) p hh c s = Ok hh s' /\
+             out s' = out s ++ frames fail_hdr (PFailed (m_mod_id (find_mod c (mods s))) hh) s (snapshot s MT_FAILED_MESSAGE) /\
+             m_drops (find_mod c (mods s')) = m_drops (find_mod c (mods s)) + 1.
+Proof.
+  intros Hpos Ht Hreg Hw Hlg Hnd Hr.
+  assert (HcF : ~ In c (snapshot s MT_FAILED_MESSAGE)).
+  { intros Hin. destruct (Hr c Hin) as (_ & _ & _ & Hwl & _). congruence. }
+  unfold deliver_with. unfold bind at 1. unfold get. rewrite Hreg, Hw, Hlg. cbn [negb].
+  unfold bind at 1. unfold set_mod, modify.
+  set (s1 := with_mods s (upd_mod c (fun m => mm_drops m (m_drops m + 1)) (mods s))).
+  assert (Hoth : forall c', c' <> c -> find_mod c' (mods s1) = find_mod c' (mods s)).
+  { intros c' Hne. unfold s1. simpl. apply find_upd_other; auto. intro; reflexivity. }
+  assert (Hc0 : 0 <= c /\ m_conn (find_mod c (mods s)) = c).
+  { pose proof (find_mod_reg_In c _ Hreg) as [Hi Hcc]. split; [exact Hpos|exact Hcc]. }
+  unfold bind at 1. unfold send_failed_with. rewrite Ht. unfold bind at 1. unfold get. unfold send_mgr_with.
+  assert (Esn : snapshot s1 MT_FAILED_MESSAGE = snapshot s MT_FAILED_MESSAGE) by reflexivity.
+  destruct (forward_exact cfg k fail_hdr (PFailed (m_mod_id (find_mod c (mods s1))) hh) s1) as (s' & E & Ho & _ & _ & Hkeep).
+  - reflexivity.
+  - reflexivity.
+  - change (snapshot s1 (h_type fail_hdr)) with (snapshot s MT_FAILED_MESSAGE). exact Hnd.
+  - change (snapshot s1 (h_type fail_hdr)) with (snapshot s MT_FAILED_MESSAGE). intros f Hin. specialize (Hr f Hin). assert (f <> c) by (intro; subst; contradiction).
+    unfold ready in *. rewrite (Hoth f H). exact Hr.
+  - change (mgr_hdr MT_FAILED_MESSAGE SZ_FAILED_MESSAGE 0) with fail_hdr. rewrite E. cbn [ret].
+    exists s'. split; [reflexivity|]. split.
+    + rewrite Ho. change (out s1) with (out s). f_equal. change (snapshot s1 (h_type fail_hdr)) with (snapshot s MT_FAILED_MESSAGE).
+      assert (Em : m_mod_id (find_mod c (mods s1)) = m_mod_id (find_mod c (mods s))).
+      { unfold s1. simpl. destruct Hc0 as [Hc0 Hcc]. rewrite find_upd_same; auto; [|intro; reflexivity]. rewrite Hcc, Z.eqb_refl. reflexivity. }
+      rewrite Em. apply frames_ext; auto. intros f Hin. apply Hoth. intro; subst; contradiction.
+    + rewrite (Hkeep c); [|exact HcF]. unfold s1. simpl. destruct Hc0 as [Hc0 Hcc].
+      rewrite find_upd_same; auto; [|intro; reflexivity]. rewrite Hcc, Z.eqb_refl. reflexivity.
+Qed.
